@@ -51,6 +51,14 @@ def gen_case(rng, ctx):
         r = rng.random()
         if r < 0.25:
             k = keys[int(rng.integers(0, len(keys)))] if rng.random() < 0.6 else rand_key(rng, 0, 40)
+            if rng.random() < 0.15:
+                # windows equal to fill / sentinel patterns (n bytes of one value at the start, the end, or throughout)
+                b = bytes([pick(rng, [0x00, 0xFF, 0x7F, 0x80, 0x01])])
+                n = int(rng.integers(1, 13))
+                tail = rand_key(rng, 1, 6)
+                k = pick(rng, [b * n + tail, tail + b * n, b * (n + 3), b * n + tail + b * n])
+                lst.append(["ngram", hx(k), n])
+                continue
             # n in 1..len+2 hits both branches and the boundary len == n
             lst.append(["ngram", hx(k), int(rng.integers(1, len(k) + 3))])
         elif r < 0.35:
